@@ -44,7 +44,10 @@ def _class_cases(tier):
     for c in K.module_classes():
         if c.mtype in ("Output", "Sampler", "MetaModule"):
             continue
-        for mode in ("edit_all", "edit_controllers_only"):
+        modes = ["edit_all", "edit_controllers_only"]
+        if rw._array_attrs(c()) or hasattr(c(), "drawn_waveform"):
+            modes.append("edit_payload_in_place")
+        for mode in modes:
             out.append((f"{K.cls_id(c)},{mode}", (K.cls_id(c), mode)))
     return out
 
@@ -66,6 +69,23 @@ def edit_after_load(H, case):
         rw.sym_options(H, q, pfx="e.o.")
         rw.sym_midi_maps(H, q, pfx="e.mm.")
         rw.sym_payload(H, q, pfx="e.pl.")
+    elif mode == "edit_payload_in_place":
+        # element-wise edits of the LOADED payload objects (no new list is assigned)
+        if hasattr(q, "harmonics"):
+            # SpectraVoice mirrors its arrays in Harmonic objects: edit through their public setters
+            for i in (0, 7, 15):
+                q.harmonics[i].freq_hz = H.int(f"e.pl.h{i}.freq", 0, 65535)
+                q.harmonics[i].volume = H.int(f"e.pl.h{i}.vol", 0, 255)
+                q.harmonics[i].width = H.int(f"e.pl.h{i}.width", 0, 255)
+        for attr, arr in rw._array_attrs(q):
+            if hasattr(q, "harmonics"):
+                break
+            lo, hi = rw._ARRAY_RANGE[arr.type]
+            for i in (0, len(arr.values) // 2, len(arr.values) - 1):
+                arr.values[i] = H.int(f"e.pl.{attr}[{i}]", lo, hi)
+        if hasattr(q, "drawn_waveform"):
+            for i in (0, 31):
+                q.drawn_waveform.samples[i] = H.int(f"e.pl.wave[{i}]", -128, 127)
     else:
         # through the public descriptors, in strict mode
         for name, ctl in type(q).controllers.items():
@@ -76,7 +96,14 @@ def edit_after_load(H, case):
                 H.setattr(q, name, H.bool("e.c." + name))
     r = rw.read_back(H, rw.write_container(H, Synth(q))).module
     rw.check_controllers(H, q, r, "edited.ctl")
-    if mode == "edit_all":
+    if mode == "edit_payload_in_place":
+        rw.check_payload(H, q, r, "edited.payload")
+        fresh = type(q)()
+        for attr, arr in rw._array_attrs(fresh):
+            if not callable(getattr(type(arr), "default", None)) and isinstance(getattr(type(arr), "default", None), list):
+                H.check(f"class_default_untouched[{attr}]", list(type(arr).default) == list(arr.values))
+        rw.check_options(H, m1, r, "untouched.opt")
+    elif mode == "edit_all":
         rw.check_module_common(H, q, r, "edited", in_project=False)
         rw.check_options(H, q, r, "edited.opt")
         rw.check_midi_maps(H, q, r, "edited.cmid")
@@ -176,3 +203,46 @@ def fixtures_edit_and_resave(H, path):
     for (mi, kind, name), v in expect.items():
         got = getattr(mods2[mi], name)
         H.check(f"edited_{kind}_is_what_gets_saved", got == v, witness={"file": fname, "module": type(mods[mi]).__name__, kind: name, "set": repr(v), "reloaded": repr(got)})
+
+
+@contract("edit_note_in_old_project", ["C06", "C04"], targets=["rv.readers.sunvox:SunVoxReader.process_end_of_file", "rv.project:Project.chunks",
+                                                              "rv.pattern:Pattern.iff_chunks", "rv.note:Note.raw_data"])
+def edit_note_in_old_project(H, _):
+    """A project whose based-on version is old (any symbolic value), loaded, a note's module number
+    edited to any 16-bit value, saved and loaded again: the edited number is what comes back (the
+    legacy high-byte fix-up depends on the version the FILE was written by, which the writer stamps
+    as current, never on the based-on version)."""
+    from rv.pattern import Pattern
+
+    p = Project()
+    p.based_on_version = tuple(H.int(f"bver{i}", 0, 255) for i in range(4))
+    pat = Pattern(lines=1, tracks=1)
+    p.attach_pattern(pat)
+    q = rw.read_back(H, rw.write_container(H, p))
+    H.check("based_on_version_kept", H.eq(tuple(q.based_on_version), tuple(p.based_on_version)))
+    new = H.int("module", 0, 0xFFFF)
+    q.patterns[0].data[0][0].module = new
+    r = rw.read_back(H, rw.write_container(H, q))
+    H.check("edited_module_number_is_what_gets_saved", r.patterns[0].data[0][0].module == new)
+    H.cover("reached")
+
+
+@contract("edit_loaded_sample_in_place", ["C06", "C16"], targets=_T, cases=lambda tier: [("longer", 6), ("shorter", 1), ("empty", 0)])
+def edit_loaded_sample_in_place(H, nframes):
+    """A loaded Sampler's EXISTING Sample object gets new PCM data of a different length (and a new
+    format): save + load returns exactly the new bytes and the new frame count."""
+    s1 = fill_sampler(H, Sampler(), {"samples": {2: (F16, MONO, OFF, 3)}, "lean": True}, "a.")
+    q = H.call(s1.clone)
+    H.check("loaded", type(q) is Sampler and q.samples[2] is not None)
+    smp = q.samples[2]
+    smp.format, smp.channels = F8, MONO
+    smp.data = H.bytes("new_pcm", nframes) if nframes else b""
+    smp.volume = H.int("new_volume", 0, 255)
+    r = H.call(q.clone)
+    got = r.samples[2]
+    H.check("sample_still_in_slot", got is not None)
+    if got is not None:
+        H.check("new_pcm_is_what_gets_saved", H.eq(got.data, smp.data))
+        H.check("new_frame_count", got.frames == nframes and got._length == nframes)
+        H.check("new_volume", H.eq(got.volume, smp.volume))
+    H.cover("reached")
